@@ -235,6 +235,11 @@ fn main() {
     let base_replay: fn(&serde_json::Value, &mut Stats) = p.replay;
     let id2 = id.clone();
     let routed = move |case: &serde_json::Value, st: &mut Stats| {
+        // a case of a hidden-state phase names the inputs that were evaluated right before it
+        for pre in case_predecessors(case) {
+            let mut scratch = Stats::new();
+            base_replay(&pre, &mut scratch);
+        }
         if dbg_routed && !cfg!(debug_assertions) && case.get("build").and_then(|k| k.as_str()) == Some(props::c01::DBG_TAG) {
             props::c01::replay_in_dbg_build(&id2, case, st);
         } else {
